@@ -700,7 +700,7 @@ pub fn run(ctx: &Ctx) -> i32 {
     }
     let tier = ctx.tier;
     let quiet = Redirect::start(false);
-    let n: u32 = tier.pick(2400, 120_000);
+    let n: u32 = tier.pick(7200, 240_000);
     let nshards = 48usize;
     let mut stats = par_shards(ctx, nshards, |shard| {
         let stats = std::cell::RefCell::new(Stats::new());
